@@ -464,7 +464,8 @@ def OutKeys.slot (ok : OutKeys) : MkfKey → Nat
   | .dirname => ok.dirname
   | .fileext => ok.fileext
 
-abbrev Item := Int × Ctx
+/-- a flow value: data with a context, or bare data (`none`) -/
+abbrev Item := Int × Option Ctx
 
 /-- `full_context.update(context)`: top-level keys of the second argument win -/
 def shallowUpdate : Ctx → Ctx → Ctx
@@ -559,12 +560,28 @@ def mkfSteps (n : Nat) (ok : OutKeys) (overwrite : Bool) (static : Option Ctx) :
 def mkfCall (n : Nat) (ok : OutKeys) (m : Mkf) (static : Option Ctx) (ctx : Ctx) : Option Ctx :=
   mkfSteps n ok m.overwrite static m.methods ctx
 
+/-- `UpdateContextFromStatic.run` on one value (meta/elements.py 132-138); `data, context = val` raises for a
+value without context: `none` -/
+def ucfsItem (c : Ctx) (it : Item) : Option Item :=
+  it.2.map fun x => (it.1, some (updL x c))
+
+/-- `MakeFilename.__call__` on one value: `get_context(value)` is `{}` for bare data, and bare data stays bare
+unless some method updated the context (then `output` is set, so the context is not empty) -/
+def mkfItem (n : Nat) (ok : OutKeys) (m : Mkf) (static : Option Ctx) (it : Item) : Option Item :=
+  match it.2 with
+  | some x => (mkfCall n ok m static x).map fun y => (it.1, some y)
+  | none => (mkfCall n ok m static (Val.empty n)).map fun y => (it.1, if nonEmpty y = true then some y else none)
+
+/-- the run-time mutator on one value (bare data is left alone) -/
+def mutItem (n : Nat) (k : Nat) (ks : List Nat) (l : Leaf) (it : Item) : Item :=
+  (it.1, it.2.map fun x => updL x (single n k ks l))
+
 mutual
 /-- `el.run(flow)` (for a `Source`: `el()`), `srcFlow` being what the first element of a `Source` generates -/
 def run (n : Nat) (ok : OutKeys) (srcFlow : List Item) : St → List Item → Option (List Item)
-  | .ucfs c, f => some (f.map fun it => (it.1, updL it.2 c))   -- meta/elements.py 132-138
-  | .mkf t c, f => f.mapM fun it => (mkfCall n ok t c it.2).map fun x => (it.1, x)
-  | .mut k ks l, f => some (f.map fun it => (it.1, updL it.2 (single n k ks l)))
+  | .ucfs c, f => f.mapM (ucfsItem c)
+  | .mkf t c, f => f.mapM (mkfItem n ok t c)
+  | .mut k ks l, f => some (f.map (mutItem n k ks l))
   | .src, _ => some srcFlow
   | .seq _ cs _, f => runL n ok srcFlow cs f
   | .split bs, f => if bs.isEmpty then some f else runB n ok srcFlow bs f
@@ -663,15 +680,15 @@ mutual
 `UpdateContextFromStatic` (recursive update of the run-time context with the prefix fold) and `MakeFilename`
 (the name it derives) look at `c`. -/
 def runRef (n : Nat) (ok : OutKeys) (src : List Item) : Tree → Ctx → List Item → Option (List Item)
-  | .leaf .ucfs, c, f => some (f.map fun it => (it.1, updL it.2 c))
-  | .leaf (.mkf t), c, f => f.mapM fun it => (mkfCall n ok t (seenOpt c) it.2).map fun x => (it.1, x)
+  | .leaf .ucfs, c, f => f.mapM (ucfsItem c)
+  | .leaf (.mkf t), c, f => f.mapM (mkfItem n ok t (seenOpt c))
   | .leaf .src, _, _ => some src
   | .leaf (.set ..), _, f => some f
   | .leaf .store, _, f => some f
   | .leaf (.write _), _, f => some f
   | .leaf (.cache _), _, f => some f
   | .leaf .data, _, f => some f
-  | .leaf (.mut k ks l), _, f => some (f.map fun it => (it.1, updL it.2 (single n k ks l)))
+  | .leaf (.mut k ks l), _, f => some (f.map (mutItem n k ks l))
   | .seq _ cs, c, f => runRefL n ok src cs c f
   | .split bs, c, f => if bs.isEmpty then some f else runRefB n ok src bs c f
 def runRefL (n : Nat) (ok : OutKeys) (src : List Item) : List Tree → Ctx → List Item → Option (List Item)
@@ -702,7 +719,7 @@ def runPlain (n : Nat) (src : List Item) : Tree → List Item → List Item
   | .leaf (.write _), f => f
   | .leaf (.cache _), f => f
   | .leaf .data, f => f
-  | .leaf (.mut k ks l), f => f.map fun it => (it.1, updL it.2 (single n k ks l))
+  | .leaf (.mut k ks l), f => f.map (mutItem n k ks l)
   | .seq _ cs, f => runPlainL n src cs f
   | .split bs, f => if bs.isEmpty then f else runPlainB n src bs f
 def runPlainL (n : Nat) (src : List Item) : List Tree → List Item → List Item
@@ -779,5 +796,69 @@ def histOfCone (n : Nat) : List ConeStep → List Ctx → List Ctx
   | [], F => F
   | .seq earlier :: k, F => histOfCone n k (Val.empty n :: pastL n earlier F)
   | .split :: k, F => histOfCone n k (Val.empty n :: F)
+
+/-! ## which elements are handed the same dictionary *object* (tokens)
+
+`LenaSequence._set_context` passes its variable `context` to consecutive elements and rebinds it only to the
+(deep) copy that an element's `_get_context()` returns; a `Split` hands each branch its own deep copy.
+`UpdateContextFromStatic`, `MakeFilename` and a sequence's `_static_context` keep the object they are handed;
+`SetContext` and `StoreContext` keep a private copy.  `tokAt t abs inc p`: the token of the dictionary handed to
+the node at path `p` below `t`, where `t` sits at the absolute path `abs` and is itself handed `inc`.  A token is
+the place where the copy was made: `(path, 0)` the copy returned by `_get_context()` of the element at `path`,
+`(path, 1)` the copy a `Split` made for its branch at `path`. -/
+
+abbrev Tok := List Nat × Nat
+
+/-- index of the last element with `_get_context` in a list of children -/
+def lastGet : List Tree → Option Nat
+  | [] => none
+  | t :: ts =>
+    match lastGet ts with
+    | some j => some (j + 1)
+    | none => if t.hasGet then some 0 else none
+
+def tokAt : Tree → List Nat → Tok → List Nat → Option Tok
+  | _, _, inc, [] => some inc
+  | .leaf _, _, _, _ :: _ => none
+  | .seq _ cs, abs, inc, i :: p =>
+    (cs[i]?).bind fun c =>
+      let running : Tok := match lastGet (cs.take i) with
+        | some j => (abs ++ [j], 0)                  -- `context = el._get_context()`
+        | none => inc
+      tokAt c (abs ++ [i]) running p
+  | .split bs, abs, _, i :: p =>
+    (bs[i]?).bind fun b => tokAt b (abs ++ [i]) (abs ++ [i], 1) p      -- `seq._set_context(deepcopy(context))`
+
+/-- the token of the dictionary handed to the node at `p` of the whole program `t` -/
+def tokOf (t : Tree) (p : List Nat) : Option Tok := tokAt t [] ([], 2) p
+
+/-! ## independent vocabulary for "the key that cannot be resolved" -/
+
+/-- follow a path of keys through nested dictionaries -/
+def descend : Ctx → List Nat → Option Ctx
+  | c, [] => some c
+  | c, k :: ks =>
+    match getSlot c k with
+    | some (.dict d) => descend d ks
+    | _ => none
+
+mutual
+/-- forget everything that `_set_context` stored except what `UpdateContextFromStatic` and `MakeFilename` hold -/
+def St.strip : St → St
+  | .set k ks v _ => .set k ks v (.failed 0)
+  | .store _ => .store []
+  | .ucfs c => .ucfs c
+  | .mkf m c => .mkf m c
+  | .write t _ => .write t none
+  | .cache t _ => .cache t none
+  | .data => .data
+  | .mut k ks l => .mut k ks l
+  | .src => .src
+  | .seq kind cs _ => .seq kind (stripL cs) (.failed 0)
+  | .split bs => .split (stripL bs)
+def stripL : List St → List St
+  | [] => []
+  | s :: ss => s.strip :: stripL ss
+end
 
 end Lena.C13
